@@ -14,6 +14,18 @@ CHECKS = {
    "bounded exhaustive enumeration of malformed neighbours (all truncations, size-field boundary values and pairs, bad types, garbage) of every small well-formed stream; sandboxed workers",
    "Every derived input is decoded by the real library in a memory-limited worker; nil error is only allowed when the reference decoder accepts the whole input and agrees on the lists. Exhaustive over seeds x deviation alphabet with deviation bound 2.",
    "Inputs needing three coordinated field changes, or field values outside the boundary alphabet, are not explored; reference decoder trusted.", "DESIGN.md section 4 C08"),
+ "C10": ("exploration", "E-shape",
+   "bounded exhaustive product of descriptor fields (timestamp x certificate-data length x type GUID x payload) against a reference reader/writer, plus library-constructed values and shipped .auth files",
+   "Every descriptor of the product is decoded by the real library from a stream that continues with a payload; consumed length, each field, encode(decode) and decode(encode) are compared with an independent from-the-spec implementation. Exhaustive over the stated alphabets.",
+   "Certificate-data lengths outside the boundary alphabet are covered by the small-scope argument (the code has no length-dependent branch besides dwLength arithmetic); refauth trusted.", "DESIGN.md section 4 C10"),
+ "C17": ("exploration", "E-shape",
+   "bounded exhaustive enumeration of structured GUID families (per-byte x 256 values, per-field exhaustive, 2^16 bit patterns, all pairs of 600) and of strings (length<=3 over 12 boundary code points, every BMP scalar) against independent formatters",
+   "All conversions are run on the real library for every value of the families and compared with an independent formatter / unicode/utf16; wire layout is checked in both directions through the structure encoders. Exhaustive over the families, which cover every single-byte and single-field local pattern.",
+   "Not all 2^128 GUIDs: width/padding/byte-order defects are local to a byte or field, which the families enumerate completely; combinations of defects across fields are not.", "DESIGN.md section 4 C17"),
+ "C18": ("exploration", "E-shape",
+   "exhaustive enumeration of all 65536 boot numbers and all short boot-order lists through the real in-memory store (composition of GetBootOrder and GetBootEntry); bounded exhaustive node sequences (<=3 nodes over 7 kinds) from an independent device-path encoder",
+   "Every boot number is resolved end-to-end through the real accessors; every load option of the bounded language is decoded by the real library and compared field by field, HD/File text forms parsed and compared by value. Exhaustive for boot numbers; bounded (node count, field-value alphabets) for load options.",
+   "Node sequences longer than 3 and field values outside the alphabets rely on the small-scope hypothesis; dpgen encoder trusted.", "DESIGN.md section 4 C18"),
 }
 
 NOT_YET = "check not built yet in this round (planned, see DESIGN.md section 4); no claim is made"
